@@ -96,6 +96,7 @@ def gen_knobs(rng, tier):
         "cwd_in_input": rng.random() < 0.3,
         "symlinked_ancestor": rng.random() < 0.25,
         "cwd_named_like_default": rng.random() < 0.2,
+        "tier": tier,
     }
 
 
@@ -238,7 +239,8 @@ def generate(rng, k):
     if k["population"] == "faulted":
         fk = rng.choice(["crash_at_event", "crash_at_event", "eio_on_copy", "enospc_on_write", "eacces_on_mkdir"])
         if fk == "crash_at_event":
-            run["faults"] = [{"kind": fk, "k": rng.choice([1, 2, 3, 5, 8, 13, 21, 34, 55, 80, 120])}]
+            # quick: a spread of crash points; thorough: any of the ~100-200 mutating events of a run
+            run["faults"] = [{"kind": fk, "k": rng.choice([1, 2, 3, 5, 8, 13, 21, 34, 55, 80, 120]) if k.get("tier") != "thorough" else rng.randint(1, 180)}]
         else:
             run["faults"] = [{"kind": fk, "k": rng.choice([1, 1, 2, 3, 5])}]
     ops.append(run)
